@@ -45,6 +45,11 @@ type unit struct {
 	Tier string `json:"tier"`
 	// Resume is the first sequence number to execute (earlier ones are regenerated for de-duplication only).
 	Resume int `json:"resume"`
+	// Arc, when set, makes this a container-aware unit: Arc is the archive seed ("f:" fixture or "b:" built
+	// from scratch), Entry the inner entry that is mutated (-1: archive-level operators) and Seed the content
+	// the entry starts from ("e:" = its own).
+	Arc   string `json:"arc,omitempty"`
+	Entry int    `json:"entry,omitempty"`
 	// Seq selects the single mutant of a contain unit.
 	Seq int `json:"seq"`
 	// Data, when set, is the only mutant to run (replay).
@@ -72,7 +77,7 @@ type msg struct {
 const osRelease = "NAME=\"Debian GNU/Linux\"\nID=debian\nVERSION_ID=\"12\"\nVERSION_CODENAME=bookworm\n"
 
 const healthyReq = "requests==2.31.0\nflask==3.0.0\n"
-const healthyDpkg = "Package: zlib1g\nStatus: install ok installed\nSource: zlib\nVersion: 1:1.2.13.dfsg-1\nArchitecture: amd64\nMaintainer: Mark Brown <broonie@debian.org>\n\n"
+const healthyDpkg = "Package: zlib1g\nStatus: install ok installed\nSource: zlib (1:1.2.13.dfsg-1)\nVersion: 1:1.2.13.dfsg-1+b1\nArchitecture: amd64\nMaintainer: Mark Brown <broonie@debian.org>\n\n"
 
 var ctl *os.File
 var ctlBuf = make([]byte, 0, 64)
@@ -406,6 +411,13 @@ func loadSeed(s string) ([]byte, string, error) {
 		}
 		return nil, "", fmt.Errorf("unknown minimal document %q", s)
 	}
+	if strings.HasPrefix(s, "b:") {
+		es, ok := builtArchives[s[2:]]
+		if !ok {
+			return nil, "", fmt.Errorf("unknown built archive %q", s)
+		}
+		return packArchive(es), "", nil
+	}
 	if strings.HasPrefix(s, "i:") {
 		d, ok := inline[s[2:]]
 		if !ok {
@@ -733,7 +745,13 @@ type replayData struct {
 }
 
 func mkReplay(kind string, u unit, c cand, d string, data []byte) replayData {
-	return replayData{Kind: kind, Extractor: u.Ex, Cand: u.Cand, Path: c.Path, MutPath: c.mutPath(), Seed: u.Seed, Mutation: d,
+	seed := u.Seed
+	if u.Arc != "" {
+		// the replay carries the re-packed archive; the archive seed is kept only for the scene's neighbours
+		seed = u.Arc
+		d = fmt.Sprintf("entry %d (content from %s): %s", u.Entry, u.Seed, d)
+	}
+	return replayData{Kind: kind, Extractor: u.Ex, Cand: u.Cand, Path: c.Path, MutPath: c.mutPath(), Seed: seed, Mutation: d,
 		DataB64: base64.StdEncoding.EncodeToString(data)}
 }
 
@@ -746,16 +764,16 @@ func preview(b []byte) string {
 
 // runExtractUnit enumerates every mutant of (extractor, seed, placement).
 func runExtractUnit(u unit) error {
-	seed, seedAbs, err := loadSeed(u.Seed)
+	src, err := openSource(u)
 	if err != nil {
 		return harnessErr{err.Error()}
 	}
-	sc, err := buildScene(u.Ex, u.Cand, seedAbs)
+	sc, err := buildScene(u.Ex, u.Cand, src.seedAbs)
 	if err != nil {
 		return err
 	}
 	defer sc.e.close()
-	if err := sc.place(seed); err != nil {
+	if err := sc.place(src.first()); err != nil {
 		return harnessErr{err.Error()}
 	}
 	// the placement must be one the extractor accepts (fresh instance: os/nix remembers what it saw)
@@ -778,7 +796,8 @@ func runExtractUnit(u unit) error {
 	partial := false
 	recycleAt := -1
 	var herr error
-	pathB := []byte(fmt.Sprintf("%s|%d", u.Ex, u.Cand))
+	pathB := []byte(fmt.Sprintf("%s|%d|%s|%d", u.Ex, u.Cand, u.Arc, u.Entry))
+	label := src.label(u)
 	one := func(seq int, d mutDesc, data []byte) bool {
 		if u.Deadline > 0 && seq&15 == 0 && time.Now().Unix() > u.Deadline {
 			partial = true
@@ -794,7 +813,7 @@ func runExtractUnit(u unit) error {
 			return true
 		}
 		seen[h] = struct{}{}
-		if err := sc.place(data); err != nil {
+		if err := sc.place(src.wrap(data)); err != nil {
 			herr = harnessErr{err.Error()}
 			return false
 		}
@@ -816,7 +835,7 @@ func runExtractUnit(u unit) error {
 			first := strings.SplitN(res.stack, "\n", 2)[0]
 			_ = first
 			send(msg{T: "viol", Key: causeKey(u.Ex, "", res.stack), Seq: seq, Stack: trimStack(res.stack),
-				What: fmt.Sprintf("%s Extract(%s) panicked: %s [seed %s, %s, content %s]", u.Ex, sc.c.Path, res.pval, u.Seed, d, preview(data))})
+				What: fmt.Sprintf("%s Extract(%s) panicked: %s [seed %s, %s, content %s]", u.Ex, sc.c.Path, res.pval, label, d, preview(data))})
 			exerc++
 			hashes = append(hashes, h)
 			// do not trust the process after a panic (bolt.Open leaks its flock and mapping, ...): start afresh
@@ -854,7 +873,7 @@ func runExtractUnit(u unit) error {
 		one(0, mutDesc{Op: "replay"}, data)
 		total = 1
 	} else {
-		total = enumerate(seed, u.Tier, u.Resume, one)
+		total = src.enumerate(u.Tier, u.Resume, one)
 	}
 	sendHashes(hashes)
 	if herr != nil {
@@ -923,10 +942,11 @@ func (sc *scene) scan(bad, healthy filesystem.Extractor) (v scanView, pval any, 
 }
 
 func runContainUnit(u unit) error {
-	seed, seedAbs, err := loadSeed(u.Seed)
+	src, err := openSource(u)
 	if err != nil {
 		return harnessErr{err.Error()}
 	}
+	seedAbs := src.seedAbs
 	var data []byte
 	desc := "replay"
 	if u.Data != nil {
@@ -934,7 +954,7 @@ func runContainUnit(u unit) error {
 			return harnessErr{err.Error()}
 		}
 	} else {
-		d, b, ok := regenerate(seed, u.Tier, u.Seq)
+		d, b, ok := src.regenerate(u.Tier, u.Seq)
 		if !ok {
 			return harnessErr{"contain: mutant not found"}
 		}
